@@ -50,7 +50,7 @@ import (
 )
 
 type c03Step struct {
-	dbStep
+	cdbStep
 	// Init
 	Seg  int      `json:"seg"`  // WAL segment size in pages (0 = default)
 	Bigs []string `json:"bigs"` // series whose label set is bigger than a WAL page
@@ -61,8 +61,8 @@ type c03Step struct {
 	Infl  string   `json:"infl"`  // kind of the operation in flight ("" = none)
 	Trace []string `json:"trace"` // predicted hook trace (modelled sites) of the crashed process, "op:<i>" markers included
 	// Crash: predicted contents after recovery; Recover: the same after a second crash
-	Must map[string][]dbExp `json:"must"`
-	May  map[string][]dbExp `json:"may"`
+	Must map[string][]cdbExp `json:"must"`
+	May  map[string][]cdbExp `json:"may"`
 	// Crash: a second crash, during recovery
 	Site2 string `json:"site2"`
 	Hit2  int    `json:"hit2"`
@@ -99,19 +99,19 @@ func c03Labels(s string, bigs []string) labels.Labels {
 			return labels.FromStrings("__name__", "m", "series", s, "pad", strings.Repeat("x", c03Pad))
 		}
 	}
-	return dbLabels(s)
+	return cdbLabels(s)
 }
 
-func c03Options(c dbConc, init c03Step) *tsdb.Options {
-	o := dbOptions(c, init.W, init.Cap)
+func c03Options(c cdbConc, init c03Step) *tsdb.Options {
+	o := cdbOptions(c, init.W, init.Cap)
 	if init.Seg > 0 {
 		o.WALSegmentSize = init.Seg * 32 * 1024
 	}
 	return o
 }
 
-func c03Conc(seed int64, init c03Step) dbConc {
-	c := dbMakeConc(seed, init.R, false)
+func c03Conc(seed int64, init c03Step) cdbConc {
+	c := cdbMakeConc(seed, init.R, false)
 	// EnableMemorySnapshotOnShutdown: only in the thorough tier (seed%5 == 3); the snapshot is opaque to Crash.tla, so the
 	// trace comparison is skipped for those workloads and only the contents are judged
 	c.Snapshot = c.Snapshot && !verifh.Quick()
@@ -188,7 +188,7 @@ type c03Runner struct {
 	db   *tsdb.DB
 	dir  string
 	opts *tsdb.Options
-	conc dbConc
+	conc cdbConc
 	init c03Step
 	apps map[string]any
 	rej  map[string]bool
@@ -223,11 +223,11 @@ func (r *c03Runner) do(s c03Step, onClosed func()) error {
 		case s.Ty == "h" && s.V == 0:
 			h = &histogram.Histogram{Sum: math.Float64frombits(value.StaleNaN)}
 		case s.Ty == "h":
-			h = dbHist(s.V)
+			h = cdbHist(s.V)
 		case s.V == 0:
 			fh = &histogram.FloatHistogram{Sum: math.Float64frombits(value.StaleNaN)}
 		default:
-			fh = dbFloatHist(s.V)
+			fh = cdbFloatHist(s.V)
 		}
 		var err error
 		switch a := r.apps[s.App].(type) {
@@ -242,7 +242,7 @@ func (r *c03Runner) do(s c03Step, onClosed func()) error {
 		default:
 			return fmt.Errorf("append on unknown appender")
 		}
-		if got := dbErrClass(err); got != s.Ret {
+		if got := cdbErrClass(err); got != s.Ret {
 			// the admission rules are C02's subject; a workload that does not run as generated is useless here
 			return fmt.Errorf("Append returned %q, workload expects %q", got, s.Ret)
 		}
@@ -475,20 +475,20 @@ func c03RunChild(spec c03Spec, scratch string, tag string, randomKill time.Durat
 }
 
 // contents as series -> t -> sample
-type c03Contents map[string]map[int64]dbSample
+type c03Contents map[string]map[int64]cdbSample
 
 // c03Query returns the contents seen by the sample querier and by the chunk querier (where the same timestamp was
 // written in order and out of order with different values either value is legitimate, so the two may differ).
-func c03Query(db dbQueryable) (c03Contents, c03Contents, error) {
+func c03Query(db cdbQueryable) (c03Contents, c03Contents, error) {
 	res := [2]c03Contents{}
 	for qi, chunk := range []bool{false, true} {
-		got, err := dbQuery(db, math.MinInt64, math.MaxInt64, chunk)
+		got, err := cdbQuery(db, math.MinInt64, math.MaxInt64, chunk)
 		if err != nil {
 			return nil, nil, err
 		}
 		cur := c03Contents{}
 		for name, smp := range got {
-			m := map[int64]dbSample{}
+			m := map[int64]cdbSample{}
 			for i, x := range smp {
 				if i > 0 && smp[i-1].T >= x.T {
 					return nil, nil, fmt.Errorf("series %s not strictly increasing in time (chunkq=%v): %v", name, chunk, smp)
@@ -548,7 +548,7 @@ func c03Fmt(c c03Contents) string {
 	return sb.String()
 }
 
-func c03ExpFmt(c dbConc, e map[string][]dbExp) string {
+func c03ExpFmt(c cdbConc, e map[string][]cdbExp) string {
 	var names []string
 	for n := range e {
 		names = append(names, n)
@@ -559,20 +559,20 @@ func c03ExpFmt(c dbConc, e map[string][]dbExp) string {
 		if len(e[n]) == 0 {
 			continue
 		}
-		sb.WriteString(n + ":" + dbFmtExp(c, e[n]) + " ")
+		sb.WriteString(n + ":" + cdbFmtExp(c, e[n]) + " ")
 	}
 	return sb.String()
 }
 
 // c03Bounds checks lower ⊆ got ⊆ upper (upper = union of the alternatives of `upper1` and `upper2`), values included.
 // Returns a signature and message, "" if fine.
-func c03Bounds(c dbConc, got c03Contents, lower map[string][]dbExp, uppers ...map[string][]dbExp) (string, string) {
+func c03Bounds(c cdbConc, got c03Contents, lower map[string][]cdbExp, uppers ...map[string][]cdbExp) (string, string) {
 	sig, msg, _, _ := c03BoundsX(c, got, lower, uppers...)
 	return sig, msg
 }
 
 // c03BoundsX is c03Bounds returning also the series and timestamp of the offending sample.
-func c03BoundsX(c dbConc, got c03Contents, lower map[string][]dbExp, uppers ...map[string][]dbExp) (string, string, string, int64) {
+func c03BoundsX(c cdbConc, got c03Contents, lower map[string][]cdbExp, uppers ...map[string][]cdbExp) (string, string, string, int64) {
 	for name, l := range lower {
 		for _, e := range l {
 			g, ok := got[name][c.tm(e.T)]
@@ -610,7 +610,7 @@ func c03BoundsX(c dbConc, got c03Contents, lower map[string][]dbExp, uppers ...m
 }
 
 // c03WasCommitted: sample g of series name was part of the acknowledged contents after some operation <= upto.
-func c03WasCommitted(c dbConc, w []c03Step, upto int, name string, g dbSample) bool {
+func c03WasCommitted(c cdbConc, w []c03Step, upto int, name string, g cdbSample) bool {
 	for i := 1; i <= upto && i < len(w); i++ {
 		for _, e := range w[i].Exp[name] {
 			if c.tm(e.T) != g.T {
@@ -637,21 +637,23 @@ func c03NoBlockAbove(db *tsdb.DB, t int64) bool {
 	return true
 }
 
-// c03Report files a failed verdict: the named deviations of the code (known findings, see Crash.tla CKF) as Deviation
-// records (matched against known_findings.json by the driver, not counted as violations here), anything else as Violation.
+// c03Bad counts the verdicts that are not one of the named deviations of the code (known findings, see Crash.tla CKF):
+// only those stop a run early and fail the test; the named ones are matched against known_findings.json by the driver.
+var c03Bad atomic.Int64
+
 func c03Report(prefix, sig, msg string, c any) {
 	switch {
 	case strings.HasSuffix(sig, "wbl-skipped-after-wal-repair"), strings.HasSuffix(sig, "repair-file-left:acked-sample-lost"),
 		strings.HasSuffix(sig, "deleted-sample-replayed-from-wal"), strings.HasSuffix(sig, "failed-open-changed-undamaged-data:cp"),
-		sig == "hc:snapshot:acked-sample-lost":
-		verifh.Deviation(prefix+sig, msg, c)
+		strings.HasSuffix(sig, "snapshot:acked-sample-lost"):
 	default:
-		verifh.Violation(prefix+sig, msg, c)
+		c03Bad.Add(1)
 	}
+	verifh.Violation(prefix+sig, msg, c)
 }
 
 // c03Equal: got == exp exactly (with alternatives).
-func c03Equal(c dbConc, got c03Contents, exp map[string][]dbExp) bool {
+func c03Equal(c cdbConc, got c03Contents, exp map[string][]cdbExp) bool {
 	if sig, _ := c03Bounds(c, got, exp, exp); sig != "" {
 		return false
 	}
@@ -681,13 +683,13 @@ func (p c03Point) String() string {
 }
 
 // expAfter returns the predicted contents after operation i (0 = empty DB) of workload w.
-func c03ExpAfter(w []c03Step, i int) map[string][]dbExp {
+func c03ExpAfter(w []c03Step, i int) map[string][]cdbExp {
 	for ; i >= 1; i-- {
 		if w[i].Exp != nil {
 			return w[i].Exp
 		}
 	}
-	return map[string][]dbExp{}
+	return map[string][]cdbExp{}
 }
 
 // c03LogWatch is a slog handler that remembers whether tsdb.Open repaired the WAL / WBL.
@@ -736,7 +738,7 @@ func c03Verdict2(w []c03Step, seed int64, dir string, run *c03Run, pt c03Point) 
 	conc := c03Conc(seed, w[0])
 	what := fmt.Sprintf("crash at %s [%s]; acked ops=%d, in flight=%d %s", pt, conc, run.acked, run.inflight, run.inflA)
 	acked := c03ExpAfter(w, run.acked)
-	lower, uppers := acked, []map[string][]dbExp{acked}
+	lower, uppers := acked, []map[string][]cdbExp{acked}
 	if run.inflight > 0 {
 		next := c03ExpAfter(w, run.inflight)
 		switch run.inflA {
@@ -751,14 +753,14 @@ func c03Verdict2(w []c03Step, seed int64, dir string, run *c03Run, pt c03Point) 
 
 // c03JudgeDir opens dir and checks lower ⊆ contents ⊆ ∪uppers (values included), then that the database accepts new
 // writes and keeps them over a clean restart. onOpenErr, if set, decides about a failing Open (C04 allows some).
-func c03JudgeDir(w []c03Step, seed int64, dir string, ackedOp int, what string, lower map[string][]dbExp, uppers []map[string][]dbExp,
+func c03JudgeDir(w []c03Step, seed int64, dir string, ackedOp int, what string, lower map[string][]cdbExp, uppers []map[string][]cdbExp,
 	onOpenErr func(error) (string, string)) (sig, msg string, recovered c03Contents) {
 	return c03JudgeDirX(w, seed, dir, ackedOp, what, lower, uppers, onOpenErr, false)
 }
 
 // c03JudgeDirX: with durable=true the state the recovering Open left ON DISK is judged too: the directory is copied while
 // the database is open (= what a process kill right after recovery leaves) and the copy must open with the same bounds.
-func c03JudgeDirX(w []c03Step, seed int64, dir string, ackedOp int, what string, lower map[string][]dbExp, uppers []map[string][]dbExp,
+func c03JudgeDirX(w []c03Step, seed int64, dir string, ackedOp int, what string, lower map[string][]cdbExp, uppers []map[string][]cdbExp,
 	onOpenErr func(error) (string, string), durable bool) (sig, msg string, recovered c03Contents) {
 	init := w[0]
 	conc := c03Conc(seed, init)
@@ -823,7 +825,7 @@ func c03JudgeDirX(w []c03Step, seed int64, dir string, ackedOp int, what string,
 	if durable {
 		cp := dir + "-killcopy"
 		os.RemoveAll(cp)
-		if err := dbCopyTree(dir, cp); err != nil {
+		if err := cdbCopyTree(dir, cp); err != nil {
 			return "infra", "copy: " + err.Error(), got
 		}
 		os.Remove(filepath.Join(cp, "lock"))
@@ -888,16 +890,16 @@ func c03JudgeDirX(w []c03Step, seed int64, dir string, ackedOp int, what string,
 	}
 	want := c03Contents{}
 	for n, m := range got {
-		want[n] = map[int64]dbSample{}
+		want[n] = map[int64]cdbSample{}
 		for t, x := range m {
 			want[n][t] = x
 		}
 	}
 	for _, n := range names {
 		if want[n] == nil {
-			want[n] = map[int64]dbSample{}
+			want[n] = map[int64]cdbSample{}
 		}
-		want[n][newT] = dbSample{T: newT, Ty: "f", F: 42.5}
+		want[n][newT] = cdbSample{T: newT, Ty: "f", F: 42.5}
 	}
 	// same timestamps as recovered + the new samples; values within what was written (a timestamp written twice with
 	// different values may legitimately show either)
@@ -1012,7 +1014,7 @@ func TestVerifC03Crash(t *testing.T) {
 			if run.errLine != "" {
 				if strings.Contains(run.errLine, " Open: ") {
 					// the database does not open after a clean Close inside the workload: "reopening succeeds" is violated without any kill
-					verifh.Violation("open-failed-in-workload", fmt.Sprintf("workload %d: tsdb.Open after a clean Close failed: %s", ci, run.errLine),
+					c03Report("", "open-failed-in-workload", fmt.Sprintf("workload %d: tsdb.Open after a clean Close failed: %s", ci, run.errLine),
 						map[string]any{"workload": cs.W, "seed": seedOf(ci)})
 					return
 				}
@@ -1115,7 +1117,7 @@ func TestVerifC03Crash(t *testing.T) {
 			defer wg.Done()
 			for {
 				ji := int(next.Add(1)) - 1
-				if ji >= len(jobs) || verifh.Violations() >= 20 || infra.Load() != nil {
+				if ji >= len(jobs) || c03Bad.Load() >= 20 || infra.Load() != nil {
 					return
 				}
 				j := jobs[ji]
@@ -1130,7 +1132,7 @@ func TestVerifC03Crash(t *testing.T) {
 				}
 				if run.errLine != "" {
 					if strings.Contains(run.errLine, " Open: ") {
-						verifh.Violation("open-failed-in-workload", fmt.Sprintf("workload %d: tsdb.Open after a clean Close failed: %s", j.ci, run.errLine),
+						c03Report("", "open-failed-in-workload", fmt.Sprintf("workload %d: tsdb.Open after a clean Close failed: %s", j.ci, run.errLine),
 							map[string]any{"workload": cs.W, "seed": seedOf(j.ci)})
 						os.RemoveAll(sc)
 						continue
@@ -1151,7 +1153,7 @@ func TestVerifC03Crash(t *testing.T) {
 					}
 					nruns.Add(1)
 					if run2.errLine != "" {
-						verifh.Violation("open-failed", fmt.Sprintf("workload %d: crash at %s: reopening the database failed in the recovering process: %s", j.ci, j.pt, run2.errLine),
+						c03Report("", "open-failed", fmt.Sprintf("workload %d: crash at %s: reopening the database failed in the recovering process: %s", j.ci, j.pt, run2.errLine),
 							map[string]any{"workload": cs.W, "crash": j.pt.String(), "seed": seedOf(j.ci)})
 						os.RemoveAll(sc)
 						continue
@@ -1188,7 +1190,7 @@ func TestVerifC03Crash(t *testing.T) {
 	verifh.Stat(map[string]any{"crash_runs": nruns.Load(), "crash_points_unreached": unreached.Load(), "workloads": len(cases),
 		"traces_equal_to_model": traceOK.Load(), "sites_killed_at": len(sitesSeen), "inflight_kinds": fmt.Sprint(inflSeen)})
 	verifh.Done(int(nruns.Load()))
-	if verifh.Violations() > 0 {
+	if c03Bad.Load() > 0 {
 		t.Fail()
 	}
 }
